@@ -89,3 +89,20 @@ def op_const(e: ast.AST) -> Optional[str]:
     if isinstance(e, ast.Constant) and isinstance(e.value, str) and e.value.upper() in ("ADDED", "REMOVED", "AFFECTED", "MOVED", "UNCHANGED"):
         return e.value.upper()
     return None
+
+
+def as_lambda(repo: Repo, mod: Module, e: Optional[ast.AST]) -> Optional[ast.Lambda]:
+    """a callable written in a table either as a lambda or as the name of a module-level function whose (canonical) body is one
+    returned expression: both come back as an ast.Lambda (module-level string/number constants substituted)"""
+    if e is None:
+        return None
+    if isinstance(e, ast.Lambda):
+        return e
+    if isinstance(e, ast.Name) and isinstance(mod.defs.get(e.id), ast.FunctionDef):
+        f = repo.canon(mod, mod.defs[e.id])
+        body = [s for s in f.body if not (isinstance(s, ast.Expr) and isinstance(s.value, ast.Constant))]
+        if len(body) == 1 and isinstance(body[0], ast.Return) and body[0].value is not None and not f.args.vararg and not f.args.kwarg:
+            lam = ast.Lambda(args=f.args, body=body[0].value)
+            ast.copy_location(lam, mod.defs[e.id])
+            return lam
+    return None
